@@ -391,6 +391,9 @@ func toSMTPErr(err error) *smtp.SMTPError {
 			res.EnhancedCode = smtp.EnhancedCode{4, 0, 0}
 		}
 	}
+	// Status of a failed recipient is 4.x.x or 5.x.x, "550 2.1.5" of a
+	// downstream server would be reported as "Action: failed, Status: 2.1.5".
+	res.EnhancedCode = smtp.EnhancedCode(exterrors.EnhancedCode(res.EnhancedCode).FitFor(res.Code))
 
 	return res
 }
